@@ -8,6 +8,7 @@ From Verif Require Corr.C05 Proofs.ValidateBase Proofs.ValidateProofs.
 From Verif Require Import Proofs.EvalLogKit Proofs.EvalTotalOrder Proofs.EvalLog2Valid.
 From Verif Require Proofs.EvalTotalFail.
 From Verif Require Import Proofs.GateLinkDefs Proofs.GateLinkSpec.
+From Verif Require Proofs.RefSem2Depth.
 
 Lemma filter_all_false {A} (f : A -> bool) l : (forall x, In x l -> f x = false) -> filter f l = [].
 Proof.
@@ -25,7 +26,7 @@ Qed.
 (* ---- the converse of [gate_implies_oracle_valid] ---- *)
 Theorem oracle_valid_implies_gate (insch : in_schema) (iv : chain) (xin : xval) :
   in_wf insch = true ->
-  export big_fuel iv = Some xin ->
+  export_t iv = Some xin ->
   x_has_unknown xin = false ->
   C05.x_valid insch xin = true ->
   fst (validate (AccIn insch) iv) = true.
@@ -33,7 +34,7 @@ Proof.
   intros Hwf Hx Hu Hv. destruct insch as [|props required closed]; [reflexivity|].
   cbn [in_wf] in Hwf. apply nodupb_NoDup in Hwf.
   destruct xin as [xs xu xsc|xs xu xl|xs xu m]; try discriminate.
-  destruct big_fuel_S as [F HF]. rewrite HF in Hx.
+  apply RefSem2Depth.export_t_sound in Hx. remember (cdepth iv) as F eqn:HF. clear HF.
   destruct iv as [|l rest]; [cbn [export] in Hx; discriminate|].
   destruct l as [sec unk sc s|sec unk sc es|sec unk sc ps].
   { cbn [export] in Hx. discriminate. }
@@ -81,7 +82,7 @@ Qed.
 
 (** ** the evaluator's gate decides exactly as the oracle *)
 Theorem gate_is_oracle (insch : in_schema) (iv : chain) (xin : xval) :
-  in_wf insch = true -> export big_fuel iv = Some xin -> x_has_unknown xin = false ->
+  in_wf insch = true -> export_t iv = Some xin -> x_has_unknown xin = false ->
   fst (validate (AccIn insch) iv) = C05.x_valid insch xin.
 Proof.
   intros Hwf Hx Hu. destruct (C05.x_valid insch xin) eqn:Hv.
@@ -92,13 +93,13 @@ Qed.
 
 (** ** ... hence exactly as JSON Schema prescribes, and as the validator mirror does *)
 Theorem evaluator_gate_is_instance re D f (insch : in_schema) (iv : chain) (xin : xval) :
-  in_wf insch = true -> export big_fuel iv = Some xin -> x_has_unknown xin = false ->
+  in_wf insch = true -> export_t iv = Some xin -> x_has_unknown xin = false ->
   Validate.vspec re D (S (S f)) (schema_of_in insch) (json_of_x xin) = Some (fst (validate (AccIn insch) iv)).
 Proof. intros Hwf Hx Hu. rewrite vspec_family, (gate_is_oracle insch iv xin Hwf Hx Hu). reflexivity. Qed.
 
 (* for EVERY parameter setting of the mirror; no side condition on numerals or object keys is needed here *)
 Theorem evaluator_gate_is_vimpl P re D f (insch : in_schema) (iv : chain) (xin : xval) :
-  in_wf insch = true -> export big_fuel iv = Some xin -> x_has_unknown xin = false ->
+  in_wf insch = true -> export_t iv = Some xin -> x_has_unknown xin = false ->
   exists d, Validate.vimpl P re D (S (S f)) (schema_of_in insch) (json_of_x xin)
             = Some (fst (validate (AccIn insch) iv), d).
 Proof.
@@ -150,7 +151,7 @@ Qed.
 
 Theorem evaluator_gate_via_validate_agrees P re f (insch : in_schema) (iv : chain) (xin : xval) :
   Validate.p_minlen_chars P = true -> Validate.p_maxlen_chars P = true ->
-  in_wf insch = true -> export big_fuel iv = Some xin -> x_has_unknown xin = false ->
+  in_wf insch = true -> export_t iv = Some xin -> x_has_unknown xin = false ->
   Schema.value_integral (json_of_x xin) = true -> Schema.value_wf (json_of_x xin) = true ->
   exists d, Validate.vimpl P re [] (S (S f)) (schema_of_in insch) (json_of_x xin)
             = Some (fst (validate (AccIn insch) iv), d).
@@ -184,9 +185,9 @@ Qed.
 (* a value whose top is unknown contains an unknown *)
 Lemma unk_top_contains l rest : l_unk l = true -> contains_unknowns (l :: rest) = true.
 Proof.
-  intros Hu. unfold contains_unknowns. destruct (export big_fuel (l :: rest)) as [v|] eqn:E; [|reflexivity].
+  intros Hu. unfold contains_unknowns. destruct (export_t (l :: rest)) as [v|] eqn:E; [|reflexivity].
   destruct (x_has_unknown v) eqn:Hx; [reflexivity|]. apply no_unknown_top in Hx.
-  rewrite (export_top_unk _ _ _ _ E), Hu in Hx. discriminate.
+  rewrite (export_top_unk _ _ _ _ (RefSem2Depth.export_t_sound _ _ E)), Hu in Hx. discriminate.
 Qed.
 
 (* rejected => at least one diagnostic, unless the inputs contain unknowns *)
@@ -305,7 +306,7 @@ Proof. vm_compute. reflexivity. Qed.
 (* ---- the two models side by side (concrete inputs): Open reached <-> accepted, error reported <-> rejected ---- *)
 Theorem gate_models_agree P re D f (insch : in_schema) (iv : chain) (xin : xval) :
   Validate.p_gate_fallback P = true \/ Validate.p_never_reports P = true ->
-  in_wf insch = true -> export big_fuel iv = Some xin -> x_has_unknown xin = false -> contains_unknowns iv = false ->
+  in_wf insch = true -> export_t iv = Some xin -> x_has_unknown xin = false -> contains_unknowns iv = false ->
   Validate.gate_impl P re D (S (S f)) (schema_of_in insch) (json_of_x xin)
   = Some (fst (validate (AccIn insch) iv), negb (snd (validate (AccIn insch) iv) =? 0)).
 Proof.
